@@ -68,6 +68,7 @@ pub fn c09_build(raw: &Raw, _tier: Tier, _sched: bool) -> Scenario {
     }
     let racing_stop = knob(raw, 9) % 3 == 0;
     let nthreads = raw.threads.len();
+    let mut acts: Vec<ActId> = vec![];
     for (t, ops) in raw.threads.iter().enumerate() {
         let th = b.thread();
         for r in ops {
@@ -75,6 +76,7 @@ pub fn c09_build(raw: &Raw, _tier: Tier, _sched: bool) -> Scenario {
                 0..=7 => {
                     let o = ActOpts { reducers: &reds, middlewares: &[], effects: false, followups: false, veto: false, keeps: (r.k >> 8) % 4 == 0, panics: false };
                     let a = scripted_action(&mut b, s, r, &o);
+                    acts.push(a);
                     Op::Dispatch { act: a, via: via_of(r) }
                 }
                 8 | 9 => {
@@ -95,6 +97,32 @@ pub fn c09_build(raw: &Raw, _tier: Tier, _sched: bool) -> Scenario {
         if racing_stop && t + 1 == nthreads {
             let at = pick(knob(raw, 10), b.s.threads[th].len() + 1);
             b.s.threads[th].insert(at, Op::Stop { store: s, via_trait: false });
+        }
+    }
+    // a third of the cases: a direct / selector subscriber changes the subscriber list from inside
+    // its own callback (unsubscribes itself or somebody else, registers a newcomer)
+    if knob(raw, 11) % 3 == 0 && !acts.is_empty() {
+        let hosts: Vec<SubId> = subs.iter().copied().filter(|x| matches!(b.s.subs.iter().find(|y| y.id == *x).unwrap().kind, SubKind::Direct | SubKind::Selector { .. })).collect();
+        let n = 1 + (knob(raw, 12) % 2) as usize;
+        for j in 0..n {
+            let kn = knob(raw, 13 + j);
+            let host = hosts[pick(kn, hosts.len())];
+            let trigger = acts[pick(kn.rotate_left(5), acts.len())];
+            let op = match (kn >> 3) % 4 {
+                0 => Op::Unsubscribe { store: s, sub: host },
+                1 | 2 => Op::Unsubscribe { store: s, sub: subs[pick(kn.rotate_left(9), subs.len())] },
+                _ => {
+                    let cand: Vec<SubId> = subs.iter().copied().filter(|x| !registered.contains(x)).collect();
+                    if cand.is_empty() {
+                        Op::Unsubscribe { store: s, sub: host }
+                    } else {
+                        let sub = cand[pick(kn.rotate_left(9), cand.len())];
+                        registered.insert(sub);
+                        Op::Subscribe { store: s, sub }
+                    }
+                }
+            };
+            b.sub_mut(host).on_notify_ops.push((trigger, vec![op]));
         }
     }
     b.s.epilogue.push(Op::Stop { store: s, via_trait: false });
@@ -191,6 +219,9 @@ pub fn c09_check(scn: &Scenario, h: &History) -> Outcome {
     if unsub_between {
         out.class("unsubscribe-between-notifications");
     }
+    if h.recs.iter().any(|r| matches!(r.ev, Ev::Inv { th, .. } if th >= 3000)) {
+        out.class("callback-changes-subscriber-list");
+    }
     if has_chan && has_direct {
         out.class("direct-and-channeled");
     }
@@ -208,7 +239,7 @@ pub fn c09_check(scn: &Scenario, h: &History) -> Outcome {
 
 pub static C09: Profile = Profile {
     id: "C09",
-    rule: "proptest scenarios: 1-4 client threads interleaving subscribe (direct / selector / channeled with every policy and the default constructor), unsubscribe (any thread, sometimes repeated), dispatch and an optional racing stop; 2-5 subscribers of mixed kinds, some registered in the prelude. Oracle O-LIFE on the event log: required notifications, nothing after Ret(unsubscribe), exactly one on_unsubscribe before the unsubscribe()/stop() that released the subscriber returned, repeated unsubscribe adds nothing. Non-trivial = an effective unsubscribe lies between two notifying pipeline actions or overlaps one, with >= 1 channeled and >= 1 direct subscriber registered; distinct by scenario hash.",
+    rule: "proptest scenarios: 1-4 client threads interleaving subscribe (direct / selector / channeled with every policy and the default constructor), unsubscribe (any thread, sometimes repeated; in a third of the cases also from inside a direct / selector subscriber's callback: itself, another subscriber, or registering a newcomer), dispatch and an optional racing stop; 2-5 subscribers of mixed kinds, some registered in the prelude. Oracle O-LIFE on the event log: required notifications, nothing after Ret(unsubscribe), exactly one on_unsubscribe before the unsubscribe()/stop() that released the subscriber returned, repeated unsubscribe adds nothing. Non-trivial = an effective unsubscribe lies between two notifying pipeline actions or overlaps one, with >= 1 channeled and >= 1 direct subscriber registered; distinct by scenario hash.",
     raw: raw4,
     build: c09_build,
     check: c09_check,
@@ -503,7 +534,9 @@ pub static C10: Profile = Profile {
 pub fn c14_build(raw: &Raw, _tier: Tier, _sched: bool) -> Scenario {
     let mut b = ScnB::new();
     let cap = CAPS[pick(knob(raw, 0), CAPS.len())];
-    let s = b.store("c14", cap, Pol::Block, CTORS[pick(knob(raw, 1), 3)].clone());
+    // a third of the stores discard on a full queue: what the iterator must yield is still the
+    // notification stream (the pairs of the actions that were reduced), and it must still end
+    let s = b.store("c14", cap, POLS_MOSTLY_BLOCK[pick(knob(raw, 12), POLS_MOSTLY_BLOCK.len())], CTORS[pick(knob(raw, 1), 3)].clone());
     let reds = vec![b.reducer(s)];
     let d = b.sub(SubKind::Direct);
     b.s.prelude.push(Op::Subscribe { store: s, sub: d });
@@ -570,10 +603,14 @@ pub fn c14_check(scn: &Scenario, h: &History) -> Outcome {
     let sd_stream = stream_of(h, 0);
     let dacts: Vec<(ActId, St)> = sd_stream.iter().map(|x| (x.0, x.1)).collect();
     // the store keeps processing whatever the consumers do
-    for x in d.disps.iter().filter(|x| x.ok == Some(true)) {
-        if !runs.iter().any(|r| r.act == x.act) {
-            out.viol(format!("action {} was accepted but never reduced", x.act));
+    if scn.stores[s].policy == Pol::Block {
+        for x in d.disps.iter().filter(|x| x.ok == Some(true)) {
+            if !runs.iter().any(|r| r.act == x.act) {
+                out.viol(format!("action {} was accepted but never reduced", x.act));
+            }
         }
+    } else {
+        out.class("drop-policy-store");
     }
     for f in p.findings.iter().filter(|f| f.kind == Kind::Notify) {
         out.viol(format!("[Notify] @{}: {}", f.pos, f.msg));
@@ -661,7 +698,7 @@ pub fn c14_check(scn: &Scenario, h: &History) -> Outcome {
 
 pub static C14: Profile = Profile {
     id: "C14",
-    rule: "proptest scenarios: a whole-run direct subscriber D registered first, 0-2 actions dispatched before the iterator exists, 1-3 producers (half of the cases wait until iter() has returned), a consumer thread that creates the iterator and either runs it to None (+ two more next()) or takes k items and drops it, sometimes a second dropping consumer, and a stopper thread that stops the store at a generated point. Oracle O-ITER: items are a gap-free, repeat-free window of D's (state,action) stream, contain every notifying action dispatched after iter() returned, reach the end of D's stream when run to None, None thrice; after a drop the store keeps processing and stop() completes (deadlock = violation). Non-trivial = the consumer received >= 2 items while producers were still dispatching and the stop (or drop) came mid-stream; distinct by scenario hash.",
+    rule: "proptest scenarios: a store with any policy (two thirds BlockOnFull), a whole-run direct subscriber D registered first, 0-2 actions dispatched before the iterator exists, 1-3 producers (half of the cases wait until iter() has returned), a consumer thread that creates the iterator and either runs it to None (+ two more next()) or takes k items and drops it, sometimes a second dropping consumer, and a stopper thread that stops the store at a generated point. Oracle O-ITER: items are a gap-free, repeat-free window of D's (state,action) stream, contain every notifying action dispatched after iter() returned, reach the end of D's stream when run to None, None thrice; after a drop the store keeps processing and stop() completes (deadlock = violation). Non-trivial = the consumer received >= 2 items while producers were still dispatching and the stop (or drop) came mid-stream; distinct by scenario hash.",
     raw: raw3,
     build: c14_build,
     check: c14_check,
@@ -670,5 +707,5 @@ pub static C14: Profile = Profile {
     enumerate: None,
     extra: None,
     borrow: &[],
-    assumptions: &["store policy is BlockOnFull so that D's stream is the full notification sequence"],
+    assumptions: &["the reference stream is what the whole-run direct subscriber D was told (under a drop policy: the actions that survived)"],
 };
